@@ -367,7 +367,7 @@ UNITS['U25k'] = dict(
     title='planner.rs propagate_nullability / combine_nulls / combine_nulls2: the NULLs of a binary operator result come from exactly its nullable operands, the values from the same operator on the operands\' data (every buffer index; the three nullability patterns with representative types, plus the complete is_nullable / non_nullable tables)',
     harnesses=[dict(name='proofs::%s_nulls' % h, unwind=5, bounded='the three nullability patterns (both / left / right operand nullable) with representative types; every buffer index; unwind 5',
                     clause='rewrite of %s with nullable result: null sources == nullable operands; value op on forget_nullability(operands) into a fresh buffer' % v, fn='propagate_nullability[%s] + combine_nulls' % v)
-               for (h, v) in [('add', 'Add'), ('subtract', 'Subtract'), ('multiply', 'Multiply'), ('divide', 'Divide'), ('modulo', 'Modulo'), ('and', 'And'), ('or', 'Or'),
+               for (h, v) in [('add', 'Add'), ('subtract', 'Subtract'), ('multiply', 'Multiply'), ('divide', 'Divide'), ('modulo', 'Modulo'),
                               ('less_than', 'LessThan'), ('less_than_equals', 'LessThanEquals'), ('equals', 'Equals'), ('not_equals', 'NotEquals')]]
     + [dict(name='proofs::checked_%s_nulls' % h, unwind=5, bounded='the three nullability patterns (both / left / right operand nullable) with representative types; every buffer index; unwind 5',
             clause='rewrite of Checked%s: NullableChecked%s on the operands\' data with a presence bitmap from exactly the nullable operands' % (v, v), fn='propagate_nullability[Checked%s] + combine_nulls2' % v)
@@ -375,6 +375,8 @@ UNITS['U25k'] = dict(
     + [dict(name='proofs::%s' % h, unwind=5, bounded='representative types (NullableI64 input); every buffer index; unwind 5', clause=c, fn='propagate_nullability[%s]' % v)
        for (h, v, c) in [('cast_nulls', 'Cast', 'null source == input; Cast on forget_nullability(input) into a fresh buffer'), ('floor_nulls', 'Floor', 'null source == input; Floor on the input data'), ('dict_lookup_nulls', 'DictLookup', 'null source == indices; lookup on the index data'),
                          ('merge_keep_mixed_nullability', 'MergeKeep', 'the non-nullable side is wrapped by MakeNullable; MergeKeep then runs on two nullable sides, sides not swapped')]]
+    + [dict(name='proofs::%s_is_three_valued' % h, unwind=5, bounded='the three nullability patterns; one row with any data bytes / presence bits; unwind 5', clause=c, fn='propagate_nullability[%s] + combine_nulls, evaluated on one row' % v)
+       for (h, v, c) in [('or', 'Or', 'TRUE OR NULL = TRUE; defined results agree with SQL'), ('and', 'And', 'FALSE AND NULL = FALSE; defined results agree with SQL')]]
     + [dict(name='proofs::tag_tables', clause='is_nullable() is true exactly for the Nullable* types; non_nullable() maps each to its base type and is the identity elsewhere (every EncodingType)', fn='EncodingType::is_nullable / non_nullable'),
        dict(name='proofs::vx_canary', expect_fail=True)],
     assumptions=['precondition: a nullable result has at least one nullable operand (what the ASTBuilder type inference `null=lhs,rhs` produces; the proc-macro is not under contract)',
